@@ -119,3 +119,195 @@ def gen_C04(r):
 
 
 GEN = {"C01": gen_C01, "C02": gen_C02, "C03": gen_C03, "C04": gen_C04, "C09": gen_C09}
+
+
+# ---------------------------------------------------------------------------------------------
+# git-shaped histories (C05)
+
+def _git_history(r, tasks, n_ops, *, where_p=0.25, fail_p=0.0, flags_p=0.45, jobs_choices=(None,)):
+    """interleaves git operations with runs / where; returns the list of ops"""
+    ops = []
+    commits = []          # names in creation order
+    branches = {}         # branch -> tip
+    state = {"mode": "none", "head": None, "cur": None}
+    cnum = [0]
+    exps = [t for t, d in tasks.items() if d["kind"] == "exp"]
+
+    def new_commit(parents=None):
+        name = "c%d" % cnum[0]
+        cnum[0] += 1
+        op = {"op": "git", "action": "commit", "name": name}
+        if parents is not None:
+            op["parents"] = parents
+        ops.append(op)
+        commits.append(name)
+        if state["cur"]:
+            branches[state["cur"]] = name
+        state["head"] = name
+
+    mode = r.choices(["repo", "none", "empty-repo"], weights=[8, 1, 1])[0]
+    if mode != "none":
+        ops.append({"op": "git", "action": "init"})
+        state.update(mode="repo", cur="main")
+        if mode == "repo":
+            new_commit()
+    k = 0
+    while k < n_ops:
+        k += 1
+        c = r.random()
+        if state["mode"] == "repo" and c < 0.40:
+            g = r.random()
+            if g < 0.40 or not commits:
+                new_commit()
+            elif g < 0.55 and commits:
+                # new branch from a random existing commit
+                base = r.choice(commits)
+                bname = "br%d" % len(branches)
+                ops.append({"op": "git", "action": "checkout", "target": base, "new_branch": bname})
+                branches[bname] = base
+                state.update(cur=bname, head=base)
+            elif g < 0.70 and branches:
+                b = r.choice(sorted(branches))
+                ops.append({"op": "git", "action": "checkout", "target": b})
+                state.update(cur=b, head=branches[b])
+            elif g < 0.78 and commits:
+                cmt = r.choice(commits)
+                ops.append({"op": "git", "action": "checkout", "target": cmt})
+                state.update(cur=None, head=cmt)
+            elif g < 0.90 and len(branches) > 1 and state["head"]:
+                other = r.choice([b for b in sorted(branches) if branches[b] != state["head"]] or [None])
+                if other:
+                    new_commit(parents=[state["head"], branches[other]])
+            else:
+                ops.append({"op": "git", "action": "dirty", "value": r.random() < 0.7})
+            continue
+        if c < 0.46:
+            ops.append({"op": "config", "disable_git": r.random() < 0.5})
+            continue
+        if c < 0.46 + where_p * 0.5:
+            ops.append({"op": "where", "target": r.choice(list(tasks)),
+                        "flags": {"project": r.random() < 0.4, "nonexist": r.random() < 0.3},
+                        "cwd": ""})
+            continue
+        flags = {}
+        if r.random() < flags_p:
+            f = r.random()
+            if f < 0.30:
+                flags["again"] = True
+            elif f < 0.55:
+                flags["this_commit"] = True
+            elif f < 0.95:
+                pool = ["HEAD", "deadbeef", "nosuchbranch"]
+                pool += sorted(branches)
+                pool += [sim_hash(x) for x in commits] * 2
+                pool += [sim_hash(x)[:10] for x in commits]
+                flags["at_least"] = r.choice(pool)
+            else:
+                flags["again"] = True
+                flags["this_commit"] = True
+        j = r.choice(jobs_choices)
+        if j is not None:
+            flags["jobs"] = j
+        target = r.choice(exps) if exps and r.random() < 0.5 else S.pick_target(r, tasks, 0.5)
+        ops.append({"op": "run", "target": target, "flags": flags, "cwd": "",
+                    "gap": r.choice([0.0, 0.0, 0.4, 1.0, 3.0, 100.0]),
+                    "scripts": _scripts(r, tasks, None, fail_p=fail_p, files=False)})
+    return ops
+
+
+def sim_hash(name):
+    from . import sim
+
+    return sim.commit_hash(name)
+
+
+def gen_C05(r):
+    pk = _pkgs(r)
+    tasks = S.gen_graph(r, r.randint(2, 5), {"exp": 8, "cmd": 1, "group": 1, "combine": 1}, pk, p_par=0.3)
+    scn = {"epoch": 1_700_000_000 + r.randrange(10**6), "tasks": tasks, "pkgs": pk,
+           "git": {"mode": "none"}, "disable_git": r.random() < 0.1, "history": [],
+           "knobs": S.gen_knobs(r, mon=False, p_async_choices=(0.0,))}
+    scn["history"] = _git_history(r, tasks, r.randint(4, 12))
+    # foreign rows: archive made in this repository, restored after the repository was replaced
+    if r.random() < 0.2 and any(o["op"] == "run" for o in scn["history"]):
+        i = r.randrange(len(scn["history"]) // 2, len(scn["history"]) + 1)
+        extra = [{"op": "archive", "out": "A0", "cwd": ""}, {"op": "clean", "cwd": ""},
+                 {"op": "git", "action": "init"}, {"op": "git", "action": "commit", "name": "z0"},
+                 {"op": "restore", "archive": "A0", "cwd": ""}]
+        tail = _git_history(r, tasks, r.randint(1, 4))
+        tail = [o for o in tail if not (o["op"] == "git" and o["action"] == "init")]
+        for o in tail:
+            if o["op"] == "git" and o["action"] == "commit":
+                o["name"] = "z" + o["name"]
+                if "parents" in o:
+                    o.pop("parents")
+            if o["op"] == "git" and o["action"] == "checkout":
+                o["action"] = "dirty"
+            if o["op"] == "run":
+                o["flags"].pop("at_least", None)
+        scn["history"] = scn["history"][:i] + extra + tail
+    return scn
+
+
+GEN["C05"] = gen_C05
+
+
+# ---------------------------------------------------------------------------------------------
+
+def gen_C07(r):
+    scn = _base(r, n=(2, 8), kinds=KW_ALL, p_par=0.4, mon=False, p_async=(0.0,))
+    # simple git sometimes, so that the cached-version branch of the snapshot is exercised
+    ops = []
+    if r.random() < 0.3:
+        scn["disable_git"] = False
+        ops += [{"op": "git", "action": "init"}, {"op": "git", "action": "commit", "name": "c0"}]
+    for k in range(r.choice([1, 2, 3])):
+        op = _run_op(r, scn["tasks"], jobs_choices=(None, None, 2, 4), again_p=0.25,
+                     fail_p=r.choice([0.0, 0.0, 0.15]), files=True, cwds=[""] + list(scn["pkgs"]),
+                     target=r.choice(list(scn["tasks"])) if r.random() < 0.4 else None)
+        for t, lst in op["scripts"].items():
+            for sc in lst:
+                if r.random() < 0.6:
+                    sc["steps"].insert(r.randint(0, len(sc["steps"])), ["lib"])
+        ops.append(op)
+        if r.random() < 0.3 and scn["disable_git"] is False and ops[0]["op"] == "git":
+            ops.append({"op": "git", "action": "commit", "name": "c%d" % (k + 1)})
+    scn["history"] = ops
+    return scn
+
+
+def gen_C08(r):
+    scn = _base(r, n=(2, 6), kinds=KW_EXP, p_par=0.4, mon=True, p_async=(0.0, 1e-3))
+    ops = []
+    n = r.randint(2, 7)
+    have_arch = False
+    for k in range(n):
+        c = r.random()
+        gap = r.choice([0.0, 0.0, 0.0, 0.2, 0.7, 1.0, 2.0, 4.0, -1.0, -5.0, -3600.0, 86400.0])
+        if c < 0.65 or k == 0:
+            op = _run_op(r, scn["tasks"], jobs_choices=(None, None, 2, 3), again_p=0.5,
+                         fail_p=r.choice([0.0, 0.2, 0.4]), files=True, gap=gap,
+                         stop_early_p=0.1)
+            f = r.random()
+            if f < 0.15:
+                op["signal"] = {"sig": r.choice(["INT", "TERM"]), "cp": int(10 ** r.uniform(1.5, 3.6))}
+            elif f < 0.3:
+                op["kill"] = int(10 ** r.uniform(1.5, 3.6))
+            ops.append(op)
+        elif c < 0.75:
+            ops.append({"op": "archive", "out": "A%d" % k, "flags": {"latest": r.random() < 0.3}, "gap": gap, "cwd": ""})
+            have_arch = "A%d" % k
+        elif c < 0.85 and have_arch:
+            if r.random() < 0.6:
+                ops.append({"op": "clean", "cwd": ""})
+            ops.append({"op": "restore", "archive": have_arch, "gap": r.choice([0.0, -10.0, -100000.0]), "cwd": ""})
+        elif c < 0.95:
+            ops.append({"op": "gc", "flags": {"verbose": r.random() < 0.3}, "gap": gap, "cwd": ""})
+        else:
+            ops.append({"op": "clean", "cwd": ""})
+    scn["history"] = ops
+    return scn
+
+
+GEN["C07"] = gen_C07
+GEN["C08"] = gen_C08
